@@ -68,11 +68,9 @@ def cmd_replay(path: str, as_json: bool) -> int:
     worker.init(repo_path(), so, config)
     mod = importlib.import_module(f"pendmc.props.{modname}")
     acc = core.Acc(rec["property"])
-    try:
-        worker.horizon(30)
+    # as in the shards, an exception that escapes the explorer is the outcome of the case, not a failure of the replay
+    with worker.guarded(acc, rec["sub"], rec["case"], 60):
         mod.replay_case(rec["case"], acc)
-    finally:
-        worker.horizon_off()
     res = acc.result()
     sig = f'{rec["sub"]}/{rec["class"]}'
     hits = res["viol"].get(sig, {"cases": []})["cases"]
